@@ -104,6 +104,18 @@ class Engine:
         if note not in self.axiom_notes:
             self.axiom_notes.append(note)
 
+    def prove_any(self, forms):
+        """Several logically equivalent formulations of one claim (solvers are sensitive to the shape of non-linear
+        goals): the first that is decided wins.  Returns True (valid), or the formulation to hand back to the engine
+        (refuted -> the engine extracts the model; all unknown -> reported as unknown)."""
+        for f in forms:
+            r, _ = self._check(z3.Not(f))
+            if r == "unsat":
+                return True
+            if r == "sat":
+                return f
+        return forms[0]
+
     # ---- branching
     def decide(self, term):
         term = z3.simplify(term)
